@@ -66,7 +66,21 @@ pub fn bytes_to_words(bytes: &[u8]) -> &[u64] {
 ///
 /// Panics if `bytes.len()` is not a multiple of 8.
 pub fn bytes_to_words_vec(bytes: &[u8]) -> Vec<u64> {
-    bytes_to_words(bytes).to_vec()
+    assert!(
+        bytes.len() % 8 == 0,
+        "byte slice length must be a multiple of 8, got {}",
+        bytes.len()
+    );
+    // Copy word by word instead of casting the slice: the owned form must not depend on
+    // where `bytes` happens to start in memory (`cast_slice` panics on misaligned input).
+    bytes
+        .chunks_exact(8)
+        .map(|chunk| {
+            let mut word = [0u8; 8];
+            word.copy_from_slice(chunk);
+            u64::from_ne_bytes(word)
+        })
+        .collect()
 }
 
 /// Try to read u64 words from raw bytes.
@@ -78,7 +92,9 @@ pub fn try_bytes_to_words(bytes: &[u8]) -> Option<&[u64]> {
         return Some(&[]);
     }
     if bytes.len() % 8 == 0 {
-        Some(cast_slice(bytes))
+        // `try_cast_slice` also refuses a misaligned start (a `&[u64]` cannot be formed over
+        // it) instead of panicking like `cast_slice`.
+        bytemuck::try_cast_slice(bytes).ok()
     } else {
         None
     }
